@@ -279,7 +279,9 @@ class PyFlow:
         noreturn: Sequence[str] = (),
         follow_handlers: bool = False,
         super_targets: Optional[Dict[int, ast.FunctionDef]] = None,
+        inline_props: bool = False,
     ) -> None:
+        self.inline_props = inline_props  # self.<property> is evaluated through the property's body
         self.super_targets = super_targets or {}  # id(`super().m(...)` call node) -> next implementation in the MRO
         self.funcs = dict(funcs or {})
         self.methods = dict(methods or {})
@@ -358,6 +360,14 @@ class PyFlow:
             if st.exc is not None:
                 f = st.exc.func if isinstance(st.exc, ast.Call) else st.exc
                 name = src_of(f)
+                # the class may be held in a local (a row of a table of error classes)
+                base = f
+                while isinstance(base, ast.Attribute):
+                    base = base.value
+                if isinstance(base, ast.Name) and base.id in p.env:
+                    ba = single_atom(p.env[base.id])
+                    if ba is not None and ba[0] == "var":
+                        name = ba[1] + name[len(base.id):]
             p.effects.append(Ev("raise", name, node=st))
             p.done = "raise"
             return [p]
@@ -933,6 +943,12 @@ class PyFlow:
                 cv = self._const(e.attr, p)
                 if cv is not None:
                     return [(p, cv)]
+                if self.inline_props and depth < self.max_depth:
+                    ms = self.typed.get(e.value.id) or self.methods
+                    fn_ = ms.get(e.attr)
+                    if fn_ is not None and any("property" in src_of(d_) for d_ in fn_.decorator_list) and e.attr not in self.primitives and (self.inline_filter is None or self.inline_filter(e.attr, fn_)):
+                        call_ = ast.copy_location(ast.Call(func=e, args=[], keywords=[]), e)
+                        return self.call(call_, p, depth, False, no_effect)
             if isinstance(e.value, ast.Name) and e.value.id not in p.env:
                 cv = self._const(d, p)
                 if cv is not None:
@@ -964,6 +980,29 @@ class PyFlow:
             for q, l in self.ev(e.left, p, depth, no_effect=no_effect):
                 for q2, r in self.ev(e.right, q, depth, no_effect=no_effect):
                     out.append((q2, self.binop(e.op, l, r, e)))
+            return out
+        if isinstance(e, ast.BoolOp) and not all(isinstance(v, (ast.Compare, ast.BoolOp)) or (isinstance(v, ast.UnaryOp) and isinstance(v.op, ast.Not)) for v in e.values):
+            # value semantics: `a or b` is a when a is truthy, else b; `a and b` is a when a is falsy, else b
+            is_or = isinstance(e.op, ast.Or)
+            out = []
+            live = [p]
+            for i, v in enumerate(e.values):
+                if i == len(e.values) - 1:
+                    for q in live:
+                        out.extend(self.ev(v, q, depth, no_effect=no_effect))
+                    break
+                nxt = []
+                for q in live:
+                    for q2, t in self.cond(v, q, depth):
+                        if t == is_or:
+                            vv = self.ev(v, q2, depth, no_effect=True)
+                            if len(vv) == 1:
+                                out.append((vv[0][0], vv[0][1]))
+                            else:
+                                out.append((q2, opaque(src_of(v))))
+                        else:
+                            nxt.append(q2)
+                live = nxt
             return out
         if isinstance(e, (ast.BoolOp, ast.Compare)):
             return [(q, C(int(t))) for q, t in self.cond(e, p, depth)]
@@ -1310,9 +1349,10 @@ class PyFlow:
                         if nv is not None and nv != av:
                             saved_env = dict(saved_env)
                             saved_env[target] = nv
-                    if r.done == "raise":
+                    if r.done in ("raise", "exit"):
+                        # the callee raised / ended the process: the caller's path ends the same way
                         r.env = self._restore(saved_env, r.env)
-                        out.append((r, opaque("raise")))
+                        out.append((r, opaque(r.done)))
                         continue
                     v = r.ret if r.ret is not None else NONE()
                     r.done, r.ret, r.ret_node = None, None, None
@@ -1327,6 +1367,18 @@ class PyFlow:
             recv_paths = [(q, v) for q, v in self.ev(f.value, p, depth, no_effect=no_effect)]
         else:
             recv_paths = [(p, None)]
+        # a call through a local that holds a function value (C function pointer copied into a
+        # local, a bound method stored in a variable): it is a call of that function
+        alias_name: Optional[str] = None
+        alias_recv: Optional[Poly] = None
+        if isinstance(f, ast.Name) and f.id in p.env and f.id not in self.funcs and f.id not in p.funcs:
+            fa = single_atom(p.env[f.id])
+            if fa is not None and fa[0] == "var" and "." in fa[1]:
+                alias_name, alias_recv = fa[1].rsplit(".", 1)[1], V(fa[1].rsplit(".", 1)[0])
+            elif fa is not None and fa[0] == "attr" and isinstance(fa[2], str):
+                alias_name, alias_recv = fa[2], fa[1]
+        if alias_name is not None:
+            recv_paths = [(p, alias_recv)]
         for q, recv in recv_paths:
             named = [k for k in e.keywords if k.arg is not None]
             stars = [k for k in e.keywords if k.arg is None]
@@ -1340,7 +1392,7 @@ class PyFlow:
                             kws[str_of(k_)] = v_
                     else:
                         kws["**"] = sv
-                name = fname or src_of(f)
+                name = alias_name or fname or src_of(f)
                 kwa = [Poly.atom(("kw", k, v)) for k, v in sorted(kws.items())]
                 if recv is not None:
                     val = Poly.atom(("mcall", name, tuple([recv] + pos + kwa)))
